@@ -136,6 +136,10 @@ def o_fields(inp):
         if idx != exp_idx:
             return (("normalize:last-wins", repr([(f.key, f.value) for f in e.fields]), repr([(k, f"v{i}") for k, i in zip(exp_keys, exp_idx)])), True, cls)
         nontrivial = len(set(low)) < len(low) or low != keys
+    # "changes no value": every Field object the caller handed in still holds its own value (also those that lost their
+    # place in the entry to a later occurrence of their key)
+    if any(f.value != "v%d" % i for i, f in enumerate(fields)):
+        return ((f"input-field-value-changed:{inp['mw']}", repr([(f.key, f.value) for f in fields]), "every Field keeps its value v<i>"), True, cls)
     # idempotence
     out2 = _make_mw(inp).transform(out)
     e2 = out2.blocks[1]
